@@ -289,7 +289,18 @@ def unparse_Attribute(node: Attribute) -> unparse_gen_t:
 
 def unparse_Subscript(node: Subscript) -> unparse_gen_t:
     value = yield PREC_ATTR_SLOT, node.value
-    _slice = yield PREC_EXPR_SLOT, node.slice
+    if isinstance(node.slice, Tuple) and any(
+        isinstance(item, Slice) for item in node.slice.elts
+    ):
+        # a[1:2, 3]: an index tuple that contains a slice cannot be parenthesised
+        items = []
+        for item in node.slice.elts:
+            items.append((yield PREC_EXPR_SLOT, item))
+        _slice = ",".join(items)
+        if len(items) == 1:
+            _slice += ","
+    else:
+        _slice = yield PREC_EXPR_SLOT, node.slice
     return f"{value}[{_slice}]"
 
 
